@@ -13,19 +13,17 @@ open BeyondVerif.Heap BeyondVerif.Generated FormTables
 /-- every form has six pairwise distinct element names (so `param_names.index` is unambiguous) -/
 theorem names_six_distinct : ∀ p ∈ paramNames, p.2.length = 6 ∧ p.2.Nodup := by decide +kernel
 
-/-- the forms in which the element name itself is not usable: found by the oracle, see Witness/C15.lean -/
-def nameExceptions : List (String × Nat) := [("cylindrical", 1), ("cylindrical", 4)]
-
-/- Full statement (clause "element access by name … agrees with the current form's ordering"):
-     ∀ p ∈ paramNames, ∀ i < 6, access p.1 (p.2.getD i "") = .slot i
-   It is FALSE of the current code for cylindrical `theta` / `theta_dot` (Witness.C15.cylindrical_theta_refused):
-   `Form.alt` rewrites them to `θ` / `θ_dot`, which cylindrical does not have. Proved for every other (form, slot). -/
-/-- the i-th element name of a form addresses slot i -/
-theorem access_name_index_partial :
-    ∀ p ∈ paramNames, ∀ i, i < 6 → (p.1, i) ∉ nameExceptions → access p.1 (p.2.getD i "") = .slot i := by
+/- History: until /repo commit 0cea58e this held only outside cylindrical slots 1 and 4 (`access_name_index_partial`,
+   counter-witness `cylindrical_theta_refused`): `Form.alt` rewrote `theta`/`theta_dot` to names the cylindrical form did not have. -/
+/-- clause "element access by name … agrees with the current form's ordering": in every form, the i-th element
+name addresses slot i -/
+theorem access_name_index :
+    ∀ p ∈ paramNames, ∀ i, i < 6 → access p.1 (p.2.getD i "") = .slot i := by
   decide +kernel
 
 example : access "keplerian" "Ω" = .slot 3 := by decide +kernel
+example : access "cylindrical" "theta" = .slot 1 ∧ access "cylindrical" "θ" = .slot 1 ∧ access "cylindrical" "theta_dot" = .slot 4 := by
+  decide +kernel
 
 /-- an alias addresses the slot of the element it stands for, in every form that has that element -/
 theorem access_alias_index :
@@ -67,9 +65,7 @@ theorem setForm_error_atomic (h h' : Heap) (a : Nat) (name : String) (e : Err)
   · unfold setFormTo at hr
     split at hr
     · simp at hr; exact hr.1.symm
-    · split at hr
-      · simp at hr; exact hr.1.symm
-      · simp at hr
+    · simp at hr
 
 /-- an unknown frame name: nothing is touched -/
 theorem setFrame_unknown_atomic (h : Heap) (a : Nat) (name : String) (hn : resolveFrame name = none) :
@@ -78,10 +74,9 @@ theorem setFrame_unknown_atomic (h : Heap) (a : Nat) (name : String) (hn : resol
 
 example : resolveFrame "NoSuchFrame" = none := by decide +kernel
 
-/-- a failing transformation (Hill frame involved, or an unpickled object): the only cell that may be
-rewritten is the coordinate buffer, and its new content denotes the same physical state (`phys` erases
-form conversions: the code goes form → cartesian → form); form, frame, metadata, covariance cells are
-not written at all -/
+/-- a failing transformation (Hill frame involved): the only cell that may be rewritten is the coordinate
+buffer, and its new content denotes the same physical state (`phys` erases form conversions: the code goes
+form → cartesian → form); form, frame, metadata, covariance cells are not written at all -/
 theorem setFrameBasic_error_atomic (h h' : Heap) (a : Nat) (fr : Fr) (e : Err) (s : SV)
     (hs : getSV h a = some s) (hr : setFrameBasic h a fr = (h', .error e)) :
     h' = h ∨ ∃ v', h' = write h s.buf (.buf v') ∧ phys v' = phys s.val := by
@@ -89,28 +84,40 @@ theorem setFrameBasic_error_atomic (h h' : Heap) (a : Nat) (fr : Fr) (e : Err) (
   rw [hs] at hr
   simp only at hr
   split at hr
-  · left; simp at hr; exact hr.1.symm
+  · simp at hr
+  · split at hr
+    · simp at hr
+    · right; simp at hr; exact ⟨_, hr.1.symm, by simp [phys_mkConv]⟩
+    · right; simp at hr; exact ⟨_, hr.1.symm, by simp [phys_mkConv]⟩
+    · left; simp at hr; exact hr.1.symm
+
+example : setFrameBasic [.buf (.init 0), .dict [("form", .form "keplerian"), ("frame", .frame (.reg "EME2000" 0))], .sv false 0 1] 2 (.hill 0)
+    = ([.buf (.conv "cartesian" "keplerian" (.conv "keplerian" "cartesian" (.init 0))),
+        .dict [("form", .form "keplerian"), ("frame", .frame (.reg "EME2000" 0))], .sv false 0 1], .error .value) := by
+  decide +kernel
+
+/-- a failing covariance frame change writes nothing -/
+theorem covSetFrame_error_atomic (h h' : Heap) (c : Nat) (fr : Fr) (e : Err)
+    (hr : covSetFrame h c fr = (h', .error e)) : h' = h := by
+  unfold covSetFrame at hr
+  split at hr
   · split at hr
     · simp at hr
     · split at hr
-      · simp at hr
-      · right; simp at hr; exact ⟨_, hr.1.symm, by simp [phys_mkConv]⟩
-      · right; simp at hr; exact ⟨_, hr.1.symm, by simp [phys_mkConv]⟩
-      · left; simp at hr; exact hr.1.symm
-
-example : setFrameBasic [.buf (.init 0), .dict [("form", .form "keplerian"), ("frame", .frame (.reg "EME2000"))], .sv false false 0 1] 2 .hill
-    = ([.buf (.conv "cartesian" "keplerian" (.conv "keplerian" "cartesian" (.init 0))),
-        .dict [("form", .form "keplerian"), ("frame", .frame (.reg "EME2000"))], .sv false false 0 1], .error .value) := by
-  decide +kernel
+      · simp at hr; exact hr.1.symm
+      · split at hr
+        · simp at hr; exact hr.1.symm
+        · simp at hr
+  · simp at hr; exact hr.1.symm
 
 /-- where a failing `sv.frame = name` can come from: an unknown name (nothing touched), the state-vector
 part (see `setFrameBasic_error_atomic`), or — the state vector having been changed successfully — the
-covariance that was to follow it -/
+covariance that was to follow it (which is then left exactly as it was, `covSetFrame_error_atomic`) -/
 theorem setFrame_error_cases (h h' : Heap) (a : Nat) (name : String) (e : Err) (s : SV)
     (hs : getSV h a = some s) (hr : setFrame h a name = (h', .error e)) :
     (h' = h) ∨
     (∃ fr, resolveFrame name = some fr ∧ setFrameBasic h a fr = (h', .error e)) ∨
-    (∃ fr h1 c, resolveFrame name = some fr ∧ setFrameBasic h a fr = (h1, .ok ()) ∧ lookup "cov" s.items = some (.addr c)) := by
+    (∃ fr c, resolveFrame name = some fr ∧ setFrameBasic h a fr = (h', .ok ()) ∧ lookup "cov" s.items = some (.addr c)) := by
   unfold setFrame at hr
   split at hr
   · left; simp at hr; exact hr.1.symm
@@ -126,125 +133,14 @@ theorem setFrame_error_cases (h h' : Heap) (a : Nat) (name : String) (e : Err) (
       right; right
       split at hr
       · rename_i c hc
-        exact ⟨fr, h1, c, hfr, hb, hc⟩
+        refine ⟨fr, c, hfr, ?_, hc⟩
+        split at hr
+        · split at hr
+          · have := covSetFrame_error_atomic _ _ _ _ _ hr
+            rw [hb, this]
+          · simp at hr
+        · simp at hr; rw [hb, hr.1]
       · simp at hr
-
-/-! ## StateVector ↔ Orbit -/
-
-/-- `as_orbit` allocates three new cells and writes nothing: the receiver and everything reachable from it is unchanged -/
-theorem asOrbit_receiver_unchanged (h : Heap) (a p : Nat) : Pres h (asOrbit h a p).1 := by
-  unfold asOrbit
-  split
-  · exact Pres.refl h
-  · split
-    · exact Pres.refl h
-    · exact ((alloc_pres h _).alloc _).alloc _
-
-theorem asSV_receiver_unchanged (h : Heap) (a : Nat) : Pres h (asSV h a).1 := by
-  unfold asSV
-  split
-  · exact Pres.refl h
-  · split
-    · exact Pres.refl h
-    · split
-      · exact Pres.refl h
-      · exact ((alloc_pres h _).alloc _).alloc _
-
-
-/-- reading back a freshly allocated StateVector -/
-theorem getSV_alloc3 (h : Heap) (v : Val) (items : Items) (o : Bool) (f : String) (fr : Fr)
-    (hf : formOf items = some f) (hfr : frameOf items = some fr) :
-    getSV (h ++ [.buf v] ++ [.dict items] ++ [.sv o false h.length (h.length + 1)]) (h.length + 2)
-      = some ⟨o, false, h.length, h.length + 1, v, items, f, fr⟩ := by
-  unfold getSV
-  simp [hf, hfr]
-
-/-- values and metadata are preserved by StateVector → Orbit → StateVector: the object that comes back has
-the same coordinates and exactly the same `_data` entries (same keys, same order, same values) -/
-theorem as_orbit_as_statevector_id (h : Heap) (a p : Nat) (s : SV) (hs : getSV h a = some s)
-    (hown : s.owned = false) (hp : lookup "propagator" s.items = none) :
-    ∃ h1 n h2 m s2, asOrbit h a p = (h1, .ok n) ∧ asSV h1 n = (h2, .ok m) ∧ getSV h2 m = some s2 ∧
-      s2.val = s.val ∧ s2.items = s.items ∧ s2.form = s.form ∧ s2.frame = s.frame ∧ s2.orbit = false ∧
-      s2.buf ≠ s.buf ∧ s2.data ≠ s.data ∧ Pres h h2 := by
-  have hf : formOf s.items = some s.form ∧ frameOf s.items = some s.frame := by
-    unfold getSV at hs
-    split at hs
-    · split at hs
-      · split at hs
-        · rename_i f fr hf hfr; simp at hs; subst hs; exact ⟨hf, hfr⟩
-        · simp at hs
-      · simp at hs
-    · simp at hs
-  have hbuf : s.buf < h.length ∧ s.data < h.length := by
-    unfold getSV at hs
-    split at hs
-    · rename_i o own b d hc
-      split at hs
-      · rename_i v items hb hd
-        split at hs
-        · simp at hs; subst hs
-          exact ⟨(List.getElem?_eq_some_iff.mp hb).1, (List.getElem?_eq_some_iff.mp hd).1⟩
-        · simp at hs
-      · simp at hs
-    · simp at hs
-  have hf1 : formOf (insert "propagator" (.addr p) s.items) = some s.form := by
-    unfold formOf; rw [lookup_insert_ne _ _ _ _ (by decide)]; exact hf.1
-  have hfr1 : frameOf (insert "propagator" (.addr p) s.items) = some s.frame := by
-    unfold frameOf; rw [lookup_insert_ne _ _ _ _ (by decide)]; exact hf.2
-  have g1 := getSV_alloc3 h s.val (insert "propagator" (.addr p) s.items) true s.form s.frame hf1 hfr1
-  have e1 : asOrbit h a p = (h ++ [.buf s.val] ++ [.dict (insert "propagator" (.addr p) s.items)] ++ [.sv true false h.length (h.length + 1)], .ok (h.length + 2)) := by
-    unfold asOrbit; rw [hs]; simp [hown, alloc]
-  let h1 := h ++ [.buf s.val] ++ [.dict (insert "propagator" (.addr p) s.items)] ++ [.sv true false h.length (h.length + 1)]
-  have hl1 : h1.length = h.length + 3 := by simp [h1]
-  have hitems : erase "propagator" (insert "propagator" (.addr p) s.items) = s.items := erase_insert _ _ _ hp
-  have e2 : asSV h1 (h.length + 2) = (h1 ++ [.buf s.val] ++ [.dict s.items] ++ [.sv false false h1.length (h1.length + 1)], .ok (h1.length + 2)) := by
-    unfold asSV; rw [g1]; simp [alloc, hitems]
-  have g2 := getSV_alloc3 h1 s.val s.items false s.form s.frame hf.1 hf.2
-  refine ⟨h1, h.length + 2, _, h1.length + 2, _, e1, e2, g2, rfl, rfl, rfl, rfl, rfl, ?_, ?_, ?_⟩
-  · simp only; omega
-  · simp only; omega
-  · have q1 : Pres h h1 := ((alloc_pres h _).alloc _).alloc _
-    have q2 : Pres h1 (h1 ++ [.buf s.val] ++ [.dict s.items] ++ [.sv false false h1.length (h1.length + 1)]) :=
-      ((alloc_pres h1 _).alloc _).alloc _
-    exact q1.trans q2
-
-/-- `as_orbit` hands every metadata value over *as it is*: the new Orbit's `_data` holds, under every key but
-`propagator`, the very same reference as the receiver's — metadata is preserved, and every mutable value
-(covariance, maneuver list, containers) is thereby shared (see Witness/C15.lean for the consequence) -/
-theorem asOrbit_same_references (h : Heap) (a p : Nat) (s : SV) (hs : getSV h a = some s) (hown : s.owned = false) :
-    ∃ h1 n s1, asOrbit h a p = (h1, .ok n) ∧ getSV h1 n = some s1 ∧ s1.val = s.val ∧ s1.buf ≠ s.buf ∧ s1.data ≠ s.data ∧
-      ∀ k, k ≠ "propagator" → lookup k s1.items = lookup k s.items := by
-  have hf : formOf s.items = some s.form ∧ frameOf s.items = some s.frame := by
-    unfold getSV at hs
-    split at hs
-    · split at hs
-      · split at hs
-        · rename_i f fr hf hfr; simp at hs; subst hs; exact ⟨hf, hfr⟩
-        · simp at hs
-      · simp at hs
-    · simp at hs
-  have hbuf : s.buf < h.length ∧ s.data < h.length := by
-    unfold getSV at hs
-    split at hs
-    · rename_i o own b d hc
-      split at hs
-      · rename_i v items hb hd
-        split at hs
-        · simp at hs; subst hs
-          exact ⟨(List.getElem?_eq_some_iff.mp hb).1, (List.getElem?_eq_some_iff.mp hd).1⟩
-        · simp at hs
-      · simp at hs
-    · simp at hs
-  have hf1 : formOf (insert "propagator" (.addr p) s.items) = some s.form := by
-    unfold formOf; rw [lookup_insert_ne _ _ _ _ (by decide)]; exact hf.1
-  have hfr1 : frameOf (insert "propagator" (.addr p) s.items) = some s.frame := by
-    unfold frameOf; rw [lookup_insert_ne _ _ _ _ (by decide)]; exact hf.2
-  have g1 := getSV_alloc3 h s.val (insert "propagator" (.addr p) s.items) true s.form s.frame hf1 hfr1
-  have e1 : asOrbit h a p = (h ++ [.buf s.val] ++ [.dict (insert "propagator" (.addr p) s.items)] ++ [.sv true false h.length (h.length + 1)], .ok (h.length + 2)) := by
-    unfold asOrbit; rw [hs]; simp [hown, alloc]
-  refine ⟨_, _, _, e1, g1, rfl, ?_, ?_, fun k hk => lookup_insert_ne _ _ _ _ hk⟩
-  · simp only; omega
-  · simp only; omega
 
 /-! ## copies -/
 
@@ -252,23 +148,32 @@ theorem asOrbit_same_references (h : Heap) (a p : Nat) (s : SV) (hs : getSV h a 
 theorem copy_receiver_unchanged (h : Heap) (a : Nat) : Pres h (copySV h a).1 :=
   copySVWith_pres (copyRef_ok _) h a
 
-/- Full statement (clause "a copy shares no mutable data with the original"):
-     no mutable cell reachable from the copy is reachable from the original.
-   It is FALSE of the current code (Witness/C15.lean: maneuver objects and nested containers stay shared).
-   Proved at the depth the code copies: -/
 /-- after `c = sv.copy()`: the object, its coordinate buffer and its `_data` dict are new cells; the values are
-those of the receiver; and every reference stored in the new `_data` is a new cell (list, dict, ndarray,
-covariance, propagator have been copied) — the only old addresses that survive at the first level are
-maneuver objects -/
+those of the receiver; and every reference stored in the new `_data` is a new cell — the only old addresses
+that survive at the first level are maneuver objects (for the full depth see `copy_separate`) -/
 theorem copy_separate_depth1 (h h1 : Heap) (a n : Nat) (s' : SV)
     (hr : copySV h a = (h1, .ok n)) (hg : getSV h1 n = some s') :
     h.length ≤ n ∧ h.length ≤ s'.buf ∧ h.length ≤ s'.data ∧ s'.buf ≠ s'.data ∧
     (∃ s, getSV h a = some s ∧ s'.val = s.val ∧ s'.orbit = s.orbit) ∧
     ∀ k x, (k, Ref.addr x) ∈ s'.items → h.length ≤ x ∨ ∃ t, h[x]? = some (.man t) := by
-  obtain ⟨hb, hd, hn, hne, s, items', h0, hs, hc, hv, hi, ho, _⟩ := copySVWith_getSV (copyRef_ok _) h h1 a n s' hr hg
+  obtain ⟨hb, hd, hn, hne, s, items', h0, hs, hc, hv, hi, ho⟩ := copySVWith_getSV (copyRef_ok _) h h1 a n s' hr hg
   refine ⟨hn, hb, hd, hne, ⟨s, hs, hv, ho⟩, ?_⟩
   rw [hi]
   exact copyItems_fresh (copyRef_ok _) h s.items items' h0 hc
+
+/-- the form setter applied to the object a copy returned writes only new cells -/
+theorem setForm_on_copy_pres (h h1 : Heap) (a n : Nat) (name : String) (he : copySV h a = (h1, .ok n)) :
+    Pres h (setForm h1 n name).1 := by
+  have p : Pres h h1 := by have := copy_receiver_unchanged h a; rw [he] at this; exact this
+  unfold setForm
+  split
+  · exact p
+  · unfold setFormTo
+    split
+    · exact p
+    · rename_i s' hs'
+      obtain ⟨hb, hd, _⟩ := copySVWith_getSV (copyRef_ok _) h h1 a n s' he hs'
+      exact (p.wr hb _).wr hd _
 
 /-- `copy(form=…)`: the conversion runs on the new object and writes only its (new) buffer and dict — the
 receiver is unchanged whether the conversion succeeds or fails -/
@@ -278,21 +183,152 @@ theorem copyForm_receiver_unchanged (h : Heap) (a : Nat) (name : String) : Pres 
   split
   · rename_i h1 e he; rw [he] at p; exact p
   · rename_i h1 n he
-    rw [he] at p
-    have q : Pres h (setForm h1 n name).1 := by
-      unfold setForm
-      split
-      · exact p
-      · unfold setFormTo
-        split
-        · exact p
-        · rename_i s' hs'
-          split
-          · exact p
-          · obtain ⟨hb, hd, _⟩ := copySVWith_getSV (copyRef_ok _) h h1 a n s' he hs'
-            exact (p.wr hb _).wr hd _
+    have q := setForm_on_copy_pres h h1 a n name he
     split
     · rename_i h2 e he2; rw [he2] at q; exact q
     · rename_i h2 he2; rw [he2] at q; exact q
+
+theorem lookup_mem_items (k : String) (r : Ref) (items : Items) (hl : lookup k items = some r) : (k, r) ∈ items := by
+  induction items with
+  | nil => simp [lookup] at hl
+  | cons kv rest ih =>
+    obtain ⟨k', v⟩ := kv
+    by_cases hk : k' = k
+    · subst hk; simp [lookup] at hl; subst hl; exact List.mem_cons_self
+    · simp [lookup, hk] at hl; exact List.mem_cons_of_mem _ (ih hl)
+
+/- History: listed as an open obligation until /repo commit d229088 (the covariance setter no longer re-frames its
+   private state copy) made the covariance part a single write to the (new) covariance cell. -/
+/-- `copy(frame=…)`: the frame change runs on the new object; it writes its (new) buffer and dict and, when the
+covariance follows, the (new) covariance cell — the receiver and its covariance are unchanged whether the
+change succeeds or fails -/
+theorem copyFrame_receiver_unchanged (h : Heap) (a : Nat) (name : String) : Pres h (copyFrame h a name).1 := by
+  unfold copyFrame
+  have p := copy_receiver_unchanged h a
+  split
+  · rename_i h1 e he; rw [he] at p; exact p
+  · rename_i h1 n he
+    rw [he] at p
+    have q : Pres h (setFrame h1 n name).1 := by
+      unfold setFrame
+      split
+      · exact p
+      · rename_i fr hfr
+        split
+        · exact p
+        · rename_i s' hs'
+          obtain ⟨hb, hd, _, _, s, items', h0, hs, hc, _, hi, _⟩ := copySVWith_getSV (copyRef_ok _) h h1 a n s' he hs'
+          have pb : Pres h (setFrameBasic h1 n fr).1 := by
+            unfold setFrameBasic
+            rw [hs']
+            simp only
+            split
+            · exact p
+            · split
+              · exact (p.wr hb _).wr hd _
+              · exact p.wr hb _
+              · exact p.wr hb _
+              · exact p
+          split
+          · rename_i h2 e hb2; rw [hb2] at pb; exact pb
+          · rename_i h2 hb2
+            rw [hb2] at pb
+            split
+            · rename_i c hcov
+              have hfresh := copyItems_fresh (copyRef_ok _) h s.items items' h0 hc "cov" c (by rw [← hi]; exact lookup_mem_items _ _ _ hcov)
+              split
+              · rename_i cv cfr orb ofr hcell
+                split
+                · -- the covariance follows: one write, at `c`
+                  unfold covSetFrame
+                  rw [hcell]
+                  simp only
+                  split
+                  · exact pb
+                  · split
+                    · exact pb
+                    · split
+                      · exact pb
+                      · rcases hfresh with hnew | ⟨t, ht⟩
+                        · exact pb.wr hnew _
+                        · -- an old address would hold a maneuver object, not a covariance
+                          exfalso
+                          have hlt : c < h.length := (List.getElem?_eq_some_iff.mp ht).1
+                          have := pb.2 c hlt
+                          rw [hcell, ht] at this
+                          simp at this
+                · exact pb
+              · exact pb
+            · exact pb
+    split
+    · rename_i h2 e he2; rw [he2] at q; exact q
+    · rename_i h2 he2; rw [he2] at q; exact q
+
+/-! ## StateVector ↔ Orbit -/
+
+/-- `as_orbit` writes no pre-existing cell: the receiver and everything reachable from it is unchanged -/
+theorem asOrbit_receiver_unchanged (h : Heap) (a p : Nat) : Pres h (asOrbit h a p).1 := by
+  unfold asOrbit
+  split
+  · exact Pres.refl h
+  · have q := copy_receiver_unchanged h a
+    split
+    · rename_i h1 e he; rw [he] at q; exact q
+    · rename_i h1 c he
+      rw [he] at q
+      split
+      · exact q
+      · exact ((q.alloc _).alloc _).alloc _
+
+theorem asSV_receiver_unchanged (h : Heap) (a : Nat) : Pres h (asSV h a).1 := by
+  unfold asSV
+  split
+  · exact Pres.refl h
+  · split
+    · exact Pres.refl h
+    · have q := copy_receiver_unchanged h a
+      split
+      · rename_i h1 e he; rw [he] at q; exact q
+      · rename_i h1 c he
+        rw [he] at q
+        split
+        · exact q
+        · exact ((q.alloc _).alloc _).alloc _
+
+/-! ## pickle round trip -/
+
+/-- pickling writes nothing -/
+theorem pickle_receiver_unchanged (h : Heap) (a : Nat) : Pres h (pickle h a).1 := by
+  have inv0 : DeepInv (fun x => h.length ≤ x) h { h := h } := ⟨Pres.refl h, ClosedP.refl _ h, by simp⟩
+  have hd := deepRef_ok (P := fun x => h.length ≤ x) (h0 := h) (fun _ hx => hx) deepFuel { h := h } (.addr a) inv0
+  unfold pickle
+  split
+  · rename_i st r he
+    rw [he] at hd
+    split
+    · exact hd.1.pres
+    · exact hd.1.pres
+  · rename_i st he; rw [he] at hd; exact hd.1.pres
+
+/- History: until /repo commits 27f7ad7 / 2927581 the unpickled object was unusable (`self.base is None`) and its
+   covariance had lost `_data`; the model then carried `owned` / `ok` flags and the witnesses
+   `pickle_gives_unusable_object`, `pickle_then_copy_raises`. -/
+/-- the unpickled object shares *nothing* with the original: it is a new cell and every address stored in any
+cell created by the round trip is itself new (so nothing reachable from it existed before) -/
+theorem pickle_separate (h h1 : Heap) (a n : Nat) (hr : pickle h a = (h1, .ok n)) :
+    h.length ≤ n ∧ ClosedP (fun x => h.length ≤ x) h h1 := by
+  have inv0 : DeepInv (fun x => h.length ≤ x) h { h := h } := ⟨Pres.refl h, ClosedP.refl _ h, by simp⟩
+  have hd := deepRef_ok (P := fun x => h.length ≤ x) (h0 := h) (fun _ hx => hx) deepFuel { h := h } (.addr a) inv0
+  unfold pickle at hr
+  split at hr
+  · rename_i st r he
+    rw [he] at hd
+    split at hr
+    · rename_i m
+      simp at hr
+      rw [← hr.1, ← hr.2]
+      exact ⟨hd.2 m rfl, hd.1.closed⟩
+    · simp at hr
+  · simp at hr
 
 end BeyondVerif.C15
